@@ -66,6 +66,7 @@ func runC01(w *World, r *Report) {
 	c01CreateVerb(w, r)
 	c01Prune(w, r)
 	c01Purge(w, r, ef)
+	c01HistoryOrder(w, r, "C01/HISTORY-ORDER")
 }
 
 // ---- REV ---------------------------------------------------------------------------------------
@@ -1133,15 +1134,35 @@ func c01Purge(w *World, r *Report, ef *Effects) {
 			continue
 		}
 		// argument must be the full history
+		// (the list itself, not a list built from some of its elements)
 		full := false
-		for _, a := range c.Common().Args {
-			backSlice(a, func(v ssa.Value) bool {
-				if v == histVal {
-					full = true
+		var isWhole func(v ssa.Value, d int) bool
+		isWhole = func(v ssa.Value, d int) bool {
+			if v == histVal {
+				return true
+			}
+			if d > 4 {
+				return false
+			}
+			switch x := v.(type) {
+			case *ssa.ChangeType:
+				return isWhole(x.X, d+1)
+			case *ssa.Slice:
+				return x.Low == nil && x.High == nil && isWhole(x.X, d+1)
+			case *ssa.Phi:
+				for _, e := range x.Edges {
+					if !isWhole(e, d+1) {
+						return false
+					}
 				}
-				_, isCall := v.(*ssa.Call)
-				return isCall
-			})
+				return len(x.Edges) > 0
+			}
+			return false
+		}
+		for _, a := range c.Common().Args {
+			if isWhole(a, 0) {
+				full = true
+			}
 		}
 		if full {
 			purges = append(purges, c)
